@@ -309,7 +309,7 @@ def eval_zone(case):
 
 # ---------------------------------------------------------------- fuzzy
 FILLERS = [('Today is ', ''), ('', ' was the meeting'), ('The meeting was held ', ' in Berlin!'), ('<< ', ' >>'),
-           ('Reminder: ', ', see you there.')]
+           ('Reminder: ', ', see you there.'), ('Gate 40b: ', '')]     # a number glued to a letter is not a date part
 FUZZY_TEMPLATES = ['iso_T_us', 'iso_sp_s', 'iso_sp_m', 'iso_date', 'ctime', 'rfc2822', 'mon_d_y', 'month_d_comma_y',
                    'month_d_comma_y_time', 'd_mon_y', 'd-mon-y', 'wdf_month_d_y_time12', 'iso_time12', 'iso_hms', 'us_slash_time',
                    'eu_dot', 'compactT6']
